@@ -228,6 +228,8 @@ pub struct World {
     /// Round for which `burst_binds` counts, and (successful, failed-by-burst) TCP binds in it.
     pub burst_round: u32,
     pub burst_binds: (u32, u32),
+    /// Background chatter is scheduled up to this instant.
+    pub chatter_until: u64,
     pub site_counts: Vec<(Site, u32)>,
     pub counters: Counters,
     pub full_hash: Fnv,
@@ -276,6 +278,7 @@ impl World {
             readable_marks: [0; 3],
             burst_round: 0,
             burst_binds: (0, 0),
+            chatter_until: 0,
             site_counts: Vec::new(),
             counters: Counters::default(),
             full_hash: Fnv::default(),
@@ -495,6 +498,7 @@ impl World {
             self.running = true;
             // site counters restart so that scripted faults index calls of the run phase
             self.site_counts.clear();
+            self.schedule_chatter();
         }
         self.ev(1, kind as u64, id as u64);
         self.exit();
@@ -996,6 +1000,7 @@ impl World {
     pub fn on_publish(&mut self) {
         self.replay_previous_round(self.round_idx);
         self.round_idx += 1;
+        self.schedule_chatter();
         if let Some((r, paths)) = &self.sc.net.route_change {
             if *r == self.round_idx {
                 self.paths_now = paths.clone();
